@@ -1,2 +1,3 @@
 SPECIFICATION Spec
 POSTCONDITION Consumed
+VIEW Position
